@@ -54,6 +54,7 @@ type Ctx struct {
 	seen   map[string]bool
 	depth  int // inlining bound for summaries
 	cfgTag string // non-default build configuration being analysed
+	borrow map[string]string
 }
 
 func NewCtx(prop, tier string, prog *Program) *Ctx {
@@ -65,7 +66,24 @@ func NewCtx(prop, tier string, prog *Program) *Ctx {
 	return c
 }
 
+// Borrow runs the rules of another property and keeps, under new names, only the
+// obligations of the rules listed (unresolved anchors are always kept). A rule
+// is registered under every property whose statement depends on it.
+func (c *Ctx) Borrow(run func(*Ctx), rename map[string]string) {
+	old := c.borrow
+	c.borrow = rename
+	run(c)
+	c.borrow = old
+}
+
 func (c *Ctx) record(rule, construct string, st Status, pos token.Pos, detail string) {
+	if c.borrow != nil && rule != "anchor" {
+		nr, ok := c.borrow[rule]
+		if !ok {
+			return
+		}
+		rule = nr
+	}
 	if c.cfgTag != "" {
 		construct = "[" + c.cfgTag + "]" + construct
 	}
